@@ -1879,7 +1879,9 @@ def pretty_str(s, ctx, split_pattern=None):
         ))
 
         if len(lines) <= 1:
-            return flat_version
+            if is_native_type:
+                return flat_version
+            return build_fncall(ctx, constructor, argdocs=[flat_version])
 
         parts = intersperse(
             HARDLINE,
